@@ -45,7 +45,7 @@ def model(name):
     """(decls, objective, constraints, sense)"""
     base = [{"k": "vec", "name": "x", "n": 2, "lb": -3.0, "ub": 5.0}, {"k": "par", "name": "p", "val": 1.5}, {"k": "par", "name": "q", "val": 0.5}]
     lin = lambda a, b: ["bin", "+", a, b]  # noqa: E731
-    mul = lambda a, b: ["bin", "*", a, b]  # noqa: E731
+    mul = lambda a, b: ["bin", "*", (["raw", a, "float"] if isinstance(a, float) else a), b]  # noqa: E731
     if name == "coef+rhs":
         obj = lin(lin(mul(P_, sq(x0)), sq(["bin", "-", x1, Q_])), mul(["raw", 0.5, "float"], mul(x0, x1)))
         cons = [["rel", ">=", lin(x0, x1), ["bin", "-", Q_, ["raw", 1.0, "float"]], "direct"]]
@@ -83,11 +83,23 @@ def model(name):
         obj = lin(lin(sq(["bin", "-", x0, ["raw", 1.0, "float"]]), sq(x1)), mul(P_, Q_))
         cons = [["rel", "<=", ["sum", _x], P_, "direct"]]
         return base, obj, cons, "min"
+    if name == "deep-accumulated":
+        # an objective accumulated term by term beyond the depth at which the iterative compiler / differentiator take over,
+        # with the parameters inside the accumulation
+        obj = mul(P_, sq(["bin", "-", x0, Q_]))
+        for i in range(1, 412):
+            v = x0 if i % 2 == 0 else x1
+            t = mul(0.01, sq(["bin", "-", v, ["raw", 0.25 * (i % 5), "float"]]))
+            if i % 50 == 7:
+                t = mul(0.01, mul(P_, sq(["bin", "-", v, Q_])))
+            obj = lin(obj, t)
+        cons = [["rel", ">=", lin(x0, x1), ["bin", "-", Q_, ["raw", 1.0, "float"]], "direct"]]
+        return base, obj, cons, "min"
     raise KeyError(name)
 
 
 MODELS = ["coef+rhs", "fn-arg+cons-coef", "vector-param", "lp-like", "exponent", "matrix-param", "bare-param-derivative",
-          "max-concave", "constant-term"]
+          "max-concave", "constant-term", "deep-accumulated"]
 METHODS = ["auto", "SLSQP", "trust-constr"]
 
 
@@ -100,7 +112,7 @@ def info(tier):
         % (LEN[tier][0], LEN[tier][1], len(MODELS)),
         "required_cells": [f"model:{m}" for m in MODELS] + ["obs:evaluate", "obs:compiled-value", "obs:compiled-gradient", "obs:compiled-jacobian",
                                                             "obs:compiled-hessian", "obs:solve-vs-fresh-parameters", "obs:solve-vs-constants",
-                                                            "after-set"],
+                                                            "after-set", "solve:warm-start-at-previous-solution"],
         "assumptions": [
             "twin process: same interpreter / NumPy / SciPy; the solvers are deterministic, so same-path comparisons are tight (1e-7 rel on objective)",
             "literal-Constant twin may legitimately use the LP path: compared on objective only (1e-4), status differences non-comparable unless the same-path twin disagrees too",
@@ -135,6 +147,7 @@ def run_history(rec, rng, twin, mname, length):
     cur_vp = {d["name"]: list(d["vals"]) for d in decls if d["k"] == "vpar"}
     cur_mp = {d["name"]: [list(r) for r in d["vals"]] for d in decls if d["k"] == "mpar"}
     hist = []
+    last_values = None
     compiled = []  # (step, kind, fn)
     n_sets = 0
     show = {"model": mname, "objective": A.render(obj), "constraints": [A.render(c) for c in cons], "sense": sense}
@@ -251,10 +264,18 @@ def run_history(rec, rng, twin, mname, length):
             method = rng.choice(METHODS)
             hist.append(["solve", method])
             kw = {"maxiter": 500} if method == "trust-constr" else {}
+            if last_values is not None and rng.random() < 0.4:
+                # warm start at the point the previous solve returned (the first evaluation of this solve is at the last
+                # evaluated point of the previous one)
+                kw["x0"] = [last_values[nm] for nm in names]
+                hist[-1].append("warm-start")
+                rec.cmp(1, "solve:warm-start-at-previous-solution")
             try:
                 with warnings.catch_warnings():
                     warnings.simplefilter("ignore")
-                    sol = P.solve(method=method, **kw)
+                    sol = P.solve(method=method, **{**kw, **({"x0": np.array(kw["x0"], dtype=float)} if "x0" in kw else {})})
+                if sol.values and all(nm in sol.values and np.isfinite(sol.values[nm]) for nm in names):
+                    last_values = dict(sol.values)
             except Exception as ex:
                 bad("solve-raises:" + type(ex).__name__, error=repr(ex)[:200])
                 continue
